@@ -39,7 +39,11 @@ func TestVerifFilter(t *testing.T) {
 		n = 1
 	}
 	for i := 0; i < n && vHangs < 3; i++ { // three calls that never returned settle the verdict
-		bs, frames := vStream(r, res.n(60, 400))
+		maxFrame := res.n(60, 400)
+		if i%7 == 6 {
+			maxFrame = 1023 // frames of every legal length, the longest included
+		}
+		bs, frames := vStream(r, maxFrame)
 		// the last case(s): the writer stalls for seconds on the write that completes the output
 		var stall time.Duration
 		stallFirst := false
